@@ -10,32 +10,49 @@ from symx import arr as A
 
 class UFun:
     """An uninterpreted real function of one real argument in symbolic mode (so *any*
-    generating function is covered); a fixed smooth function in concrete replay."""
+    generating function with values in [lo,hi] is covered): one fresh real per distinct
+    argument normal form plus pairwise congruence axioms (a1 == a2 -> f(a1) == f(a2)), which
+    keeps the queries in QF_NRA.  In concrete replay the function takes the model's values
+    at the model's arguments and a fixed smooth function elsewhere."""
 
-    def __init__(self, ex, name, concrete=None, lo=None, hi=None):
+    def __init__(self, ex, name, concrete=None, lo=-1e3, hi=1e3):
         self.ex = ex
         self.name = name
-        self.concrete = concrete or (lambda t: math.sin(1.3 * t + 0.4) + 0.25 * t)
+        self.concrete = concrete or (lambda t: math.sin(1.3 * t + 0.4) + 0.25 * math.cos(t))
         self.lo, self.hi = lo, hi
         self.calls = 0
-        self.args = []
         if ex.sym:
-            self.f = z3.Function(name, z3.RealSort(), z3.RealSort())
+            c = C.cur()
+            if not hasattr(c, 'ufuns'):
+                c.ufuns = {}
+            self.table = c.ufuns.setdefault(name, [])
+        else:
+            self.table = ex.uf_tables.get(name, [])
 
     def _one(self, t):
         self.calls += 1
-        self.args.append(t)
         if not self.ex.sym:
-            return float(self.concrete(float(t)))
+            t = float(t)
+            for (a, v) in self.table:
+                if abs(a - t) <= 1e-9 * (1.0 + abs(t)):
+                    return float(v)
+            return float(self.concrete(t))
         tz = P.lift(t)
-        app = self.f(tz.z3())
-        r = P.atom(app, ('uf', self.name, tz.key()))
         c = C.cur()
-        if self.lo is not None:
-            c.add_axiom(app >= P._rv(P._fr(self.lo)))
-        if self.hi is not None:
-            c.add_axiom(app <= P._rv(P._fr(self.hi)))
-        return r
+        key = ('uf', self.name, tz.key())
+        idx = c.atom_by_key.get(key)
+        if idx is None:
+            v = z3.Real('%s@%d' % (self.name, len(self.table)))
+            idx = c.new_atom(v, key)
+            az = tz.z3()
+            if self.lo is not None:
+                c.add_axiom(v >= P._rv(P._fr(self.lo)))
+            if self.hi is not None:
+                c.add_axiom(v <= P._rv(P._fr(self.hi)))
+            for (oa, ov) in self.table:
+                c.add_axiom(z3.Implies(az == oa, v == ov))
+            self.table.append((az, v))
+        return P.SymReal({((idx, 1),): P.Fr(1)})
 
     def __call__(self, t):
         if isinstance(t, np.ndarray):
